@@ -438,7 +438,9 @@ func allIdle(st []string) bool {
 
 func quiesce(t *Tracer, max time.Duration) bool {
 	deadline := time.Now().Add(max)
-	for {
+	// giving up needs both: the deadline has passed and the system was looked at often enough (a process that was
+	// not scheduled for seconds on a saturated machine must not mistake that for a busy library)
+	for attempts := 0; ; attempts++ {
 		s1 := t.Seq()
 		st, _ := libGoroutines()
 		ok := allIdle(st)
@@ -451,7 +453,7 @@ func quiesce(t *Tracer, max time.Duration) bool {
 		if ok {
 			return true
 		}
-		if time.Now().After(deadline) {
+		if time.Now().After(deadline) && attempts >= 300 {
 			return false
 		}
 		time.Sleep(300 * time.Microsecond)
